@@ -593,6 +593,8 @@ def oracle_c08(env, cfg, obs):
         ws = per.get(i, [])
         env.check(len(ws) <= limit, "C08:no-more-than-budget", info=len(ws))
         o = c["outcome"]
+        if cfg.get("impersonate") and not ws:
+            continue  # the impersonation notice itself failed: the command was never transmitted
         if o[0] == "err" and o[2] == "max-retries":
             env.check(len(ws) == limit, "C08:exactly-budget-when-retries-exhausted", info=len(ws))
         if o[0] == "err" and len(ws) < limit and o[2] == "caller-timeout":
